@@ -27,7 +27,7 @@ FUZZ = {"thorough": dict(runs=20000, procs=8, wall_s=600)}
 TOLERANCES = {"iface": "bit-identical or explicit error", "ops": "1e-10 * scale (float64)"}
 VARIANTS = ["f_and_g", "f+g_prod", "f_and_g_prod", "all", "f_and_g+g_prod", "names:f,g", "names:f_and_g",
             "names:f_and_g_prod", "f+g+f_and_g_prod", "names:shadowed", "names:drift_only", "names:missing_drift",
-            "names:missing_diffusion", "names:missing_prior+logqp", "names:prior+logqp"]
+            "names:missing_diffusion", "names:missing_prior+logqp", "names:prior+logqp", "names:shadowed+logqp"]
 # variants in which the user names a method the SDE does not have: the solver needs it, so the only acceptable outcome is
 # an explicit error (the canonical-name methods present on the module describe *other* functions)
 MUST_RAISE = {"names:missing_drift", "names:missing_diffusion", "names:missing_prior+logqp"}
@@ -78,6 +78,12 @@ def make_variant(base, variant):
         # canonical names exist too but describe different functions: the renamed ones must be used
         v.f = lambda t, y: -3.0 * y                                           # noqa: E731
         v.g = lambda t, y: 0.5 * base.g(t, y) + 0.1                           # noqa: E731
+        v.mu, v.sigma = f, g
+        names = {"drift": "mu", "diffusion": "sigma"}
+    elif variant == "names:shadowed+logqp":
+        v.f = lambda t, y: -3.0 * y                                           # noqa: E731
+        v.g = lambda t, y: 0.5 * base.g(t, y) + 0.1                           # noqa: E731
+        v.h = lambda t, y: base.h(t, y)                                       # noqa: E731
         v.mu, v.sigma = f, g
         names = {"drift": "mu", "diffusion": "sigma"}
     elif variant == "names:drift_only":
@@ -169,15 +175,25 @@ def _run_iface(case):
         # of this check simple
         return Result(labels=[f"variant={case['variant']}", "skipped:logqp_shape"])
 
+    reuse = {"bad": None}
+
     def go(variant):
         sde, names = make_variant(base, variant)
         if variant == "f,g" and logqp:
             sde.h = lambda t, y: base.h(t, y)                                 # noqa: E731
-        bm = sdes.make_bm(torchsde, spec, ts[0], ts[-1], case["entropy"], levy=combo["levy"])
-        with torch.no_grad():
-            out = torchsde.sdeint(sde, y0, ts, bm=bm, method=combo["method"], dt=tm["dt"],
-                                  options=dict(combo["options"]) or None, names=names, logqp=logqp)
-        return torch.cat([out[0].reshape(-1), out[1].reshape(-1)]) if logqp else out
+        names_before = dict(names) if names is not None else None
+        outs = []
+        # the caller's `names` dict is an input: the same object is passed to two consecutive solves and must neither be
+        # modified nor lose its effect
+        for _rep in range(2 if names is not None else 1):
+            bm = sdes.make_bm(torchsde, spec, ts[0], ts[-1], case["entropy"], levy=combo["levy"])
+            with torch.no_grad():
+                out = torchsde.sdeint(sde, y0, ts, bm=bm, method=combo["method"], dt=tm["dt"],
+                                      options=dict(combo["options"]) or None, names=names, logqp=logqp)
+            outs.append(torch.cat([out[0].reshape(-1), out[1].reshape(-1)]) if logqp else out)
+        if names is not None and (names != names_before or not torch.equal(outs[0], outs[1])):
+            reuse["bad"] = (names_before, dict(names), float((outs[0] - outs[1]).abs().max()))
+        return outs[0]
 
     ref = go("f,g")
     labels = [f"variant={case['variant']}", solve.combo_label(combo)]
@@ -191,6 +207,11 @@ def _run_iface(case):
             raise
         labels.append("outcome=explicit_error")
         return Result(nontrivial=True, labels=labels, checks=1)
+    if reuse["bad"] is not None:
+        nb, na, d = reuse["bad"]
+        return Result(nontrivial=True, checks=1, fail=Fail(
+            "names_dict_reuse", f"passing the same names dict {nb} to two consecutive solves: dict afterwards {na}, results "
+                                f"differ by {d:.3e} ({solve.combo_label(combo)})", sig))
     if case["variant"] in MUST_RAISE:
         same = torch.equal(ref, got)
         return Result(nontrivial=True, checks=1, fail=Fail(
